@@ -156,6 +156,9 @@ func Known(sig string) bool { return known[sig] }
 
 const maxSamples = 3
 
+// maxHashes bounds the per-process set of distinct-case hashes (the reported distinct count is then a lower bound).
+const maxHashes = 300000
+
 // Record accounts one evaluated case.
 func Record(sub string, c any, res Result) {
 	S.mu.Lock()
@@ -167,8 +170,12 @@ func Record(sub string, c any, res Result) {
 	}
 	if res.NonTrivial {
 		S.NonTrivial++
-		h, _ := hashOf(c)
-		S.Hashes[sub+"/"+h] = struct{}{}
+		if len(S.Hashes) < maxHashes {
+			h, _ := hashOf(c)
+			S.Hashes[sub+"/"+h] = struct{}{}
+		} else {
+			S.Labels["distinct-count-capped(lower bound)"]++
+		}
 	}
 	keys := append([]string{}, res.Labels...)
 	if res.NonTrivial {
